@@ -437,7 +437,10 @@ pub fn evaluate(plan: &Plan, rec: &RunRecord, st: &mut Stats) {
     // sockets are closed when the acceptor yields to its executor for the first time) must be refused
     if graceful {
         const MARGIN_US: u64 = 25_000;
-        let closed = ev.iter().filter(|e| e.kind == "listener_closed").map(at).min_by_key(|a| a.seq);
+        // every listener of the server must be closed: judge on the *last* close, and only when all of them were seen
+        let closes: Vec<_> = ev.iter().filter(|e| e.kind == "listener_closed").map(at).collect();
+        let closed = if closes.len() >= plan.listeners.max(1) { closes.into_iter().max_by_key(|a| a.seq) } else { None };
+        st.bump("runs_by_listeners", if plan.listeners > 1 { "2" } else { "1" });
         if closed.is_some_and(|l| l.seq < c_e.seq) {
             st.count("rule3_listener_closed_before_drain_ended", 1);
             if let Some(l) = closed {
